@@ -44,6 +44,12 @@ fn main() {
             let lines = t.finish();
             println!("{}", serde_json::json!({"runs": runs, "events": lines}));
         }
+        "streamsync" => {
+            let mut t = Trace::create(job["out"].as_str().unwrap());
+            let runs = vharness::streamsync::run(&job, &mut t);
+            let lines = t.finish();
+            println!("{}", serde_json::json!({"runs": runs, "events": lines}));
+        }
         "crash" => {
             let mut t = Trace::create(job["out"].as_str().unwrap());
             let runs = vharness::crash::run(&job, &mut t);
